@@ -9,7 +9,7 @@ open Malt.Py Malt.SemAnf
 theorem evalE_hoistCopy (O : Oracle) (x : Expr) (σ : St) (hf : fragE x = true) : evalE O (hoistCopy x) σ = evalE O x σ := by
   unfold hoistCopy
   split
-  · exact evalE_adjust O x _ σ hf
+  · next hc => exact evalE_adjust O x _ σ (frag_hasCtx_nw hf hc) hf
   · rfl
 
 theorem exec_tmpAssign (O : Oracle) (k : Nat) (x : Expr) (σ : St) (hf : fragE x = true) :
@@ -101,6 +101,109 @@ theorem ensure_frag_cases (cfg : Config) (pk fld : String) (x : Expr) (n : Nat) 
     · right; simp [h1, h2, hoist]
     · left; simp [h1, h2]
 
+/-! ### on the fragment, "no `:=` inside" = "rebinds nothing" -/
+mutual
+theorem nw_of_writes_nil : ∀ (e : Expr), fragE e = true → (∀ y, y ∉ writesE e) → noWalrus e = true
+  | .name .., _, _ => by simp [noWalrus]
+  | .const .., _, _ => by simp [noWalrus]
+  | .attr i v a c, hf, hw => by
+      simp only [fragE, Bool.and_eq_true] at hf
+      simp [noWalrus, hf.2]
+  | .subscript i v s c, hf, hw => by
+      simp only [fragE, Bool.and_eq_true] at hf
+      simp [noWalrus, hf.1.2, hf.2]
+  | .call i f as ks, hf, hw => by
+      simp only [fragE, Bool.and_eq_true, List.isEmpty_iff] at hf
+      obtain ⟨⟨hff, hfa⟩, rfl⟩ := hf
+      simp only [writesE, writesEs, List.append_nil, List.mem_append, not_or] at hw
+      simp [noWalrus, noWalruss, nw_of_writes_nil f hff (fun y => (hw y).1), nws_of_writes_nil as hfa (fun y => (hw y).2)]
+  | .unary i op e, hf, hw => by
+      simp only [fragE] at hf
+      simp only [writesE] at hw
+      simp [noWalrus, nw_of_writes_nil e hf hw]
+  | .binop i op l r, hf, hw => by
+      simp only [fragE, Bool.and_eq_true] at hf
+      simp only [writesE, List.mem_append, not_or] at hw
+      simp [noWalrus, nw_of_writes_nil l hf.1 (fun y => (hw y).1), nw_of_writes_nil r hf.2 (fun y => (hw y).2)]
+  | .compare i l ops rs, hf, hw => by
+      simp only [fragE, Bool.and_eq_true] at hf
+      simp only [writesE, List.mem_append, not_or] at hw
+      simp [noWalrus, nw_of_writes_nil l hf.1.1.1 (fun y => (hw y).1), nws_of_writes_nil rs hf.1.1.2 (fun y => (hw y).2)]
+  | .seq i k es c, hf, hw => by
+      simp only [fragE, Bool.and_eq_true] at hf
+      simp [noWalrus, hf.2]
+  | .namedexpr i (.name j s .store) v, hf, hw => by
+      have := hw s
+      simp [writesE, namesE] at this
+  | .namedexpr _ (.name _ _ .load) _, h, _ | .namedexpr _ (.name _ _ .del) _, h, _
+  | .namedexpr _ (.const ..) _, h, _ | .namedexpr _ (.attr ..) _, h, _ | .namedexpr _ (.subscript ..) _, h, _
+  | .namedexpr _ (.call ..) _, h, _ | .namedexpr _ (.keyword ..) _, h, _ | .namedexpr _ (.boolop ..) _, h, _
+  | .namedexpr _ (.unary ..) _, h, _ | .namedexpr _ (.binop ..) _, h, _ | .namedexpr _ (.compare ..) _, h, _
+  | .namedexpr _ (.ifexp ..) _, h, _ | .namedexpr _ (.lambda ..) _, h, _ | .namedexpr _ (.seq ..) _, h, _
+  | .namedexpr _ (.starred ..) _, h, _ | .namedexpr _ (.namedexpr ..) _, h, _ | .namedexpr _ (.comp ..) _, h, _
+  | .namedexpr _ (.comprehension ..) _, h, _ | .namedexpr _ (.arguments ..) _, h, _ | .namedexpr _ (.arg ..) _, h, _
+  | .namedexpr _ (.withitem ..) _, h, _ | .namedexpr _ .noneMarker _, h, _ | .namedexpr _ (.other ..) _, h, _
+  | .keyword .., h, _ | .boolop .., h, _ | .ifexp .., h, _ | .lambda .., h, _ | .starred .., h, _
+  | .comp .., h, _ | .comprehension .., h, _ | .arguments .., h, _ | .arg .., h, _ | .withitem .., h, _
+  | .noneMarker, h, _ | .other .., h, _ => by notfrag h
+theorem nws_of_writes_nil : ∀ (es : List Expr), fragEs es = true → (∀ y, y ∉ writesEs es) → noWalruss es = true
+  | [], _, _ => rfl
+  | e :: es, hf, hw => by
+      simp only [fragEs, Bool.and_eq_true] at hf
+      simp only [writesEs, List.mem_append, not_or] at hw
+      simp [noWalruss, nw_of_writes_nil e hf.1 (fun y => (hw y).1), nws_of_writes_nil es hf.2 (fun y => (hw y).2)]
+end
+
+mutual
+theorem writes_nil_of_nw : ∀ (e : Expr) (y : String), noWalrus e = true → y ∉ writesE e
+  | .namedexpr .., y, h => by simp [noWalrus] at h
+  | .attr _ v _ _, y, h => by simp only [noWalrus] at h; simp only [writesE]; exact writes_nil_of_nw v y h
+  | .subscript _ v s _, y, h => by
+      simp only [noWalrus, Bool.and_eq_true] at h
+      simp only [writesE, List.mem_append, not_or]
+      exact ⟨writes_nil_of_nw v y h.1, writes_nil_of_nw s y h.2⟩
+  | .call _ f as ks, y, h => by
+      simp only [noWalrus, Bool.and_eq_true] at h
+      simp only [writesE, List.mem_append, not_or]
+      exact ⟨⟨writes_nil_of_nw f y h.1.1, writess_nil_of_nw as y h.1.2⟩, writess_nil_of_nw ks y h.2⟩
+  | .keyword _ _ _ v, y, h => by simp only [noWalrus] at h; simp only [writesE]; exact writes_nil_of_nw v y h
+  | .boolop _ _ vs, y, h => by simp only [noWalrus] at h; simp only [writesE]; exact writess_nil_of_nw vs y h
+  | .unary _ _ e, y, h => by simp only [noWalrus] at h; simp only [writesE]; exact writes_nil_of_nw e y h
+  | .binop _ _ l r, y, h => by
+      simp only [noWalrus, Bool.and_eq_true] at h
+      simp only [writesE, List.mem_append, not_or]
+      exact ⟨writes_nil_of_nw l y h.1, writes_nil_of_nw r y h.2⟩
+  | .compare _ l _ rs, y, h => by
+      simp only [noWalrus, Bool.and_eq_true] at h
+      simp only [writesE, List.mem_append, not_or]
+      exact ⟨writes_nil_of_nw l y h.1, writess_nil_of_nw rs y h.2⟩
+  | .ifexp _ t b e, y, h => by
+      simp only [noWalrus, Bool.and_eq_true] at h
+      simp only [writesE, List.mem_append, not_or]
+      exact ⟨⟨writes_nil_of_nw t y h.1.1, writes_nil_of_nw b y h.1.2⟩, writes_nil_of_nw e y h.2⟩
+  | .seq _ _ es _, y, h => by simp only [noWalrus] at h; simp only [writesE]; exact writess_nil_of_nw es y h
+  | .starred _ v _, y, h => by simp only [noWalrus] at h; simp only [writesE]; exact writes_nil_of_nw v y h
+  | .withitem _ c v, y, h => by
+      simp only [noWalrus, Bool.and_eq_true] at h
+      simp only [writesE, List.mem_append, not_or]
+      exact ⟨writes_nil_of_nw c y h.1, writess_nil_of_nw v y h.2⟩
+  | .other _ _ _ ks, y, h => by simp only [noWalrus] at h; simp only [writesE]; exact writess_nil_of_nw ks y h
+  | .name .., y, _ => by simp [writesE]
+  | .const .., y, _ => by simp [writesE]
+  | .noneMarker, y, _ => by simp [writesE]
+  | .lambda .., y, _ => by simp [writesE]
+  | .comp .., y, _ => by simp [writesE]
+  | .comprehension .., y, _ => by simp [writesE]
+  | .arguments .., y, _ => by simp [writesE]
+  | .arg .., y, _ => by simp [writesE]
+theorem writess_nil_of_nw : ∀ (es : List Expr) (y : String), noWalruss es = true → y ∉ writesEs es
+  | [], y, _ => by simp [writesEs]
+  | e :: es, y, h => by
+      simp only [noWalruss, Bool.and_eq_true] at h
+      simp only [writesEs, List.mem_append, not_or]
+      exact ⟨writes_nil_of_nw e y h.1, writess_nil_of_nw es y h.2⟩
+end
+
 /-- The predicate carried by pending statements on the fragment. -/
 abbrev FragW (W : String → Prop) (x : Expr) : Prop := fragE x = true ∧ ∀ y ∈ writesE x, W y
 
@@ -154,16 +257,19 @@ theorem visitE_finv (cfg : Config) (W : String → Prop) : ∀ (e : Expr) (n : N
       vopen h; vclose h; obtain ⟨rfl, rfl, rfl⟩ := h
       exact ⟨rfl, by simp [writesE], rfl⟩
   | .attr i v a c, n, e', D, n', hf, hw, h => by
-      simp only [fragE] at hf
+      simp only [fragE, Bool.and_eq_true] at hf
       simp only [writesE] at hw
       vopen h
       obtain ⟨v1, d1, n1, hv, h⟩ := h
       rcases hE : ensure cfg "Attribute" "value" v1 n1 with ⟨v2, h1, n2⟩
       simp only [hE] at h; vclose h
       obtain ⟨rfl, rfl, rfl⟩ := h
-      have iv := visitE_finv cfg W _ _ _ _ _ hf hw hv
+      have iv := visitE_finv cfg W _ _ _ _ _ hf.1 hw hv
       have he := ensure_finv iv.frag iv.writes hE
-      exact ⟨by simp [fragE, he.frag], by simpa [writesE] using he.writes, iv.hoists.append he.hoists⟩
+      have iv0 := visitE_finv cfg (fun _ => False) _ _ _ _ _ hf.1 (fun y hy => writes_nil_of_nw v y hf.2 hy) hv
+      have he0 := ensure_finv iv0.frag iv0.writes hE
+      have hnw : noWalrus v2 = true := nw_of_writes_nil v2 he0.frag (fun y hy => he0.writes y hy)
+      exact ⟨by simp [fragE, he.frag, hnw], by simpa [writesE] using he.writes, iv.hoists.append he.hoists⟩
   | .subscript i v s c, n, e', D, n', hf, hw, h => by
       simp only [fragE, Bool.and_eq_true] at hf
       simp only [writesE, List.mem_append] at hw
@@ -173,11 +279,18 @@ theorem visitE_finv (cfg : Config) (W : String → Prop) : ∀ (e : Expr) (n : N
       rcases hE2 : ensure cfg "Subscript" "slice" s1 n3 with ⟨s2, h2, n4⟩
       simp only [hE1, hE2] at h; vclose h
       obtain ⟨rfl, rfl, rfl⟩ := h
-      have iv := visitE_finv cfg W _ _ _ _ _ hf.1 (fun y hy => hw y (Or.inl hy)) hv
-      have is := visitE_finv cfg W _ _ _ _ _ hf.2 (fun y hy => hw y (Or.inr hy)) hs
+      have iv := visitE_finv cfg W _ _ _ _ _ hf.1.1.1 (fun y hy => hw y (Or.inl hy)) hv
+      have is := visitE_finv cfg W _ _ _ _ _ hf.1.1.2 (fun y hy => hw y (Or.inr hy)) hs
       have he1 := ensure_finv iv.frag iv.writes hE1
       have he2 := ensure_finv is.frag is.writes hE2
-      refine ⟨by simp [fragE, he1.frag, he2.frag], ?_, ((iv.hoists.append is.hoists).append he1.hoists).append he2.hoists⟩
+      have iv0 := visitE_finv cfg (fun _ => False) _ _ _ _ _ hf.1.1.1 (fun y hy => writes_nil_of_nw v y hf.1.2 hy) hv
+      have is0 := visitE_finv cfg (fun _ => False) _ _ _ _ _ hf.1.1.2 (fun y hy => writes_nil_of_nw s y hf.2 hy) hs
+      have he10 := ensure_finv iv0.frag iv0.writes hE1
+      have he20 := ensure_finv is0.frag is0.writes hE2
+      have hnw1 : noWalrus v2 = true := nw_of_writes_nil v2 he10.frag (fun y hy => he10.writes y hy)
+      have hnw2 : noWalrus s2 = true := nw_of_writes_nil s2 he20.frag (fun y hy => he20.writes y hy)
+      refine ⟨by simp [fragE, he1.frag, he2.frag, hnw1, hnw2], ?_,
+        ((iv.hoists.append is.hoists).append he1.hoists).append he2.hoists⟩
       intro y hy
       simp only [writesE, List.mem_append] at hy
       rcases hy with hy | hy
@@ -265,8 +378,9 @@ theorem visitE_finv (cfg : Config) (W : String → Prop) : ∀ (e : Expr) (n : N
       · exact he1.writes y hy
       · exact he2.writes y hy
   | .seq i k es c, n, e', D, n', hf, hw, h => by
-      simp only [fragE] at hf
+      simp only [fragE, Bool.and_eq_true] at hf
       simp only [writesE] at hw
+      have hw0 : ∀ y ∈ writesEs es, (fun _ : String => False) y := fun y hy => writess_nil_of_nw es y hf.2 hy
       cases k with
       | set =>
         vopen h
@@ -274,34 +388,45 @@ theorem visitE_finv (cfg : Config) (W : String → Prop) : ∀ (e : Expr) (n : N
         rcases hE : ensureList cfg "Set" "elts" vs1 n1 with ⟨vs2, h1, n2⟩
         simp only [hE] at h; vclose h
         obtain ⟨rfl, rfl, rfl⟩ := h
-        have iv := visitEs_finv cfg W _ _ _ _ _ hf hw hv
+        have iv := visitEs_finv cfg W _ _ _ _ _ hf.1 hw hv
         have he := ensureList_finv iv.frag iv.writes hE
-        exact ⟨by simp [fragE, he.frag], by simpa [writesE] using he.writes, iv.hoists.append he.hoists⟩
+        have iv0 := visitEs_finv cfg (fun _ => False) _ _ _ _ _ hf.1 hw0 hv
+        have he0 := ensureList_finv iv0.frag iv0.writes hE
+        have hnw := nws_of_writes_nil vs2 he0.frag (fun y hy => he0.writes y hy)
+        exact ⟨by simp [fragE, he.frag, hnw], by simpa [writesE] using he.writes, iv.hoists.append he.hoists⟩
       | tuple =>
         vopen h
         obtain ⟨vs1, d1, n1, hv, h⟩ := h
-        have iv := visitEs_finv cfg W _ _ _ _ _ hf hw hv
+        have iv := visitEs_finv cfg W _ _ _ _ _ hf.1 hw hv
+        have iv0 := visitEs_finv cfg (fun _ => False) _ _ _ _ _ hf.1 hw0 hv
         split at h
         · vclose h; obtain ⟨rfl, rfl, rfl⟩ := h
-          exact ⟨by simp [fragE, iv.frag], by simpa [writesE] using iv.writes, iv.hoists⟩
+          have hnw := nws_of_writes_nil vs1 iv0.frag (fun y hy => iv0.writes y hy)
+          exact ⟨by simp [fragE, iv.frag, hnw], by simpa [writesE] using iv.writes, iv.hoists⟩
         · rcases hE : ensureList cfg "Tuple" "elts" vs1 n1 with ⟨vs2, h1, n2⟩
           simp only [hE] at h; vclose h
           obtain ⟨rfl, rfl, rfl⟩ := h
           have he := ensureList_finv iv.frag iv.writes hE
-          exact ⟨by simp [fragE, he.frag], by simpa [writesE] using he.writes, iv.hoists.append he.hoists⟩
+          have he0 := ensureList_finv iv0.frag iv0.writes hE
+          have hnw := nws_of_writes_nil vs2 he0.frag (fun y hy => he0.writes y hy)
+          exact ⟨by simp [fragE, he.frag, hnw], by simpa [writesE] using he.writes, iv.hoists.append he.hoists⟩
       | list =>
         vopen h
         obtain ⟨vs1, d1, n1, hv, h⟩ := h
-        have iv := visitEs_finv cfg W _ _ _ _ _ hf hw hv
+        have iv := visitEs_finv cfg W _ _ _ _ _ hf.1 hw hv
+        have iv0 := visitEs_finv cfg (fun _ => False) _ _ _ _ _ hf.1 hw0 hv
         split at h
         · vclose h; obtain ⟨rfl, rfl, rfl⟩ := h
-          exact ⟨by simp [fragE, iv.frag], by simpa [writesE] using iv.writes, iv.hoists⟩
+          have hnw := nws_of_writes_nil vs1 iv0.frag (fun y hy => iv0.writes y hy)
+          exact ⟨by simp [fragE, iv.frag, hnw], by simpa [writesE] using iv.writes, iv.hoists⟩
         · rcases hE : ensureList cfg "List" "elts" vs1 n1 with ⟨vs2, h1, n2⟩
           simp only [hE] at h; vclose h
           obtain ⟨rfl, rfl, rfl⟩ := h
           have he := ensureList_finv iv.frag iv.writes hE
-          exact ⟨by simp [fragE, he.frag], by simpa [writesE] using he.writes, iv.hoists.append he.hoists⟩
-  | .namedexpr i (.name j s c) v, n, e', D, n', hf, hw, h => by
+          have he0 := ensureList_finv iv0.frag iv0.writes hE
+          have hnw := nws_of_writes_nil vs2 he0.frag (fun y hy => he0.writes y hy)
+          exact ⟨by simp [fragE, he.frag, hnw], by simpa [writesE] using he.writes, iv.hoists.append he.hoists⟩
+  | .namedexpr i (.name j s .store) v, n, e', D, n', hf, hw, h => by
       simp only [fragE] at hf
       simp only [writesE, namesE, List.mem_append, List.mem_singleton] at hw
       vopen h
@@ -315,6 +440,7 @@ theorem visitE_finv (cfg : Config) (W : String → Prop) : ∀ (e : Expr) (n : N
       rcases hy with hy | hy
       · exact hw y (Or.inl hy)
       · exact iv.writes y hy
+  | .namedexpr _ (.name _ _ .load) _, _, _, _, _, hf, _, _ | .namedexpr _ (.name _ _ .del) _, _, _, _, _, hf, _, _
   | .namedexpr _ (.const ..) _, _, _, _, _, hf, _, _ | .namedexpr _ (.attr ..) _, _, _, _, _, hf, _, _
   | .namedexpr _ (.subscript ..) _, _, _, _, _, hf, _, _ | .namedexpr _ (.call ..) _, _, _, _, _, hf, _, _
   | .namedexpr _ (.keyword ..) _, _, _, _, _, hf, _, _ | .namedexpr _ (.boolop ..) _, _, _, _, _, hf, _, _
